@@ -305,6 +305,17 @@ pub fn build_cases(cfg: &Cfg) -> Vec<Case> {
 
 pub fn run(cfg: &Cfg) -> Report {
     let mut report = Report::new(cfg);
+    // abandoned enumerations between judged cases: a relator that mentions a generator the group does not have;
+    // an enumeration dropped after its first table
+    crate::monitor::set_poison(|k| {
+        if k % 2 == 0 {
+            let rels = to_freewords(&[vec![1, 1, 1], vec![2, 1, -2, -1]]);
+            let _ = coset_tables(1, &rels, 3).take(3).count();
+        } else {
+            let rels = to_freewords(&[vec![1, 1], vec![2, 2, 2], vec![1, 2, 1, 2]]);
+            let _ = coset_tables(2, &rels, 6).next();
+        }
+    });
     let mut cases = build_cases(cfg);
     cases.sort_by_key(|c| std::cmp::Reverse(c.k * c.pres.ngens));
     let ctx = par_items(cfg, &cases, |ctx, k, c| {
